@@ -444,6 +444,87 @@ pub fn arb_case(max_ops: usize, history: bool, max_seq: u16) -> impl Strategy<Va
     })
 }
 
+// ---------------------------------------------------------------------------
+// eligibility through the daemon's TableManager: which paths enter the ranking at all is
+// decided by glue (the next-hop-invalid flag insert_route computes from the reachability
+// reports, the import policy it applies) for peer-learned, API and kernel paths alike
+// ---------------------------------------------------------------------------
+
+pub const TM_RULE: &str = "tm-eligibility: TableManager histories over 3 peers plus the API source and the kernel source (insert / replace / remove, import-policy soft reset, next-hop reachability reports before and after the paths arrive). After every step no ranked (exportable) path of any prefix has a next hop that is currently reported unreachable, whatever its source and whatever came first, the report or the path; and the ranking the TableManager hands out is in the reference decision order restricted to what the check can see without the harness's own bookkeeping (LOCAL_PREF, AS_PATH length, ORIGIN). non-trivial := a path of the API or kernel source is inserted while its next hop is reported unreachable";
+
+#[derive(Clone, Debug, Serialize, Deserialize)]
+pub struct TmCase {
+    pub ops: Vec<crate::props::tmrig::TmOp>,
+}
+
+pub fn check_tm(c: &TmCase) -> CheckResult {
+    use crate::props::tmrig::{Rig, TmOp, nh_addr};
+    use crate::table_manager::verif as tmv;
+    let rig = Rig::new(false);
+    let mut info = CaseInfo::trivial();
+    for (i, op) in c.ops.iter().enumerate() {
+        if let TmOp::InsertLocal { nh, .. } = op
+            && tmv::nexthop_invalid(&rig.tm).contains(&nh_addr(*nh, false).addr())
+        {
+            info.nontrivial = true;
+            info.classes.push("local-path-inserted-on-unreachable-next-hop");
+        }
+        rig.apply(op);
+        let invalid = tmv::nexthop_invalid(&rig.tm);
+        for family in [packet::Family::IPV4, packet::Family::IPV6] {
+            for ch in rig.tm.collect_loc_rib_paths(family) {
+                let mut prev: Option<(std::cmp::Reverse<u32>, usize, u32)> = None;
+                for p in ch.current_paths.iter() {
+                    if let Some(nh) = p.nexthop
+                        && invalid.contains(&nh.addr())
+                    {
+                        let who = if p.source.is_local() { "api" } else if p.source.is_kernel() { "kernel" } else { "peer" };
+                        return Err(Failure::new("unreachable-ranked", format!("step #{i} ({op:?}): {:?} ranks a path of the {who} source whose next hop {} is reported unreachable ({invalid:?})", ch.net, nh.addr())).with("source", who));
+                    }
+                    // the first three steps of the decision order, from the path's own attributes
+                    let find = |code: u8| p.attr.iter().find(|a| a.code() == code);
+                    let lp = find(5).and_then(|a| a.value()).unwrap_or(100);
+                    let hops = find(2).and_then(|a| a.binary()).map(|b| {
+                        let (mut k, mut n) = (0usize, 0usize);
+                        while k + 2 <= b.len() {
+                            n += match b[k] {
+                                2 => b[k + 1] as usize,
+                                1 => 1,
+                                _ => 0,
+                            };
+                            k += 2 + 4 * b[k + 1] as usize;
+                        }
+                        n
+                    }).unwrap_or(0);
+                    let origin = find(1).and_then(|a| a.value()).unwrap_or(2);
+                    let key = (std::cmp::Reverse(lp), hops, origin);
+                    if let Some(pk) = &prev
+                        && !p.source.is_llgr_stale()
+                        && *pk > key
+                    {
+                        return Err(Failure::new("ranking-order", format!("step #{i} ({op:?}): {:?} ranks a path with (LOCAL_PREF, AS_PATH length, ORIGIN) = ({lp}, {hops}, {origin}) behind a worse one", ch.net)).with("step", "tm"));
+                    }
+                    prev = Some(key);
+                }
+            }
+        }
+    }
+    Ok(info)
+}
+
+pub fn arb_tm_case() -> impl Strategy<Value = TmCase> {
+    use crate::props::tmrig::TmOp;
+    let op = prop_oneof![
+        6 => (0u8..3, 0u8..4, 0u8..2, 0u8..6, 0u8..3).prop_map(|(peer, prefix, path_id, attrs, nh)| TmOp::Insert { peer, prefix, path_id, attrs, nh }),
+        6 => (0u8..2, 0u8..4, 0u8..4, 0u8..3).prop_map(|(kind, prefix, attrs, nh)| TmOp::InsertLocal { kind, prefix, attrs, nh }),
+        2 => (0u8..3, 0u8..4, 0u8..2).prop_map(|(peer, prefix, path_id)| TmOp::Remove { peer, prefix, path_id }),
+        1 => (0u8..2, 0u8..4).prop_map(|(kind, prefix)| TmOp::RemoveLocal { kind, prefix }),
+        6 => (0u8..3, prop::bool::weighted(0.4)).prop_map(|(nh, reachable)| TmOp::NhReach { nh, reachable }),
+        1 => (0u8..3, 0u8..3).prop_map(|(peer, policy)| TmOp::SoftResetIn { peer, policy }),
+    ];
+    proptest::collection::vec(op, 1..20).prop_map(|ops| TmCase { ops })
+}
+
 pub fn run(r: &Run) {
     r.set_rule(RULE);
     r.assume("a MAC-mobility community, when generated, has sequence >= 1, so 'absent' and 'sequence 0' (which the statement does not order) never meet");
@@ -453,9 +534,14 @@ pub fn run(r: &Run) {
     r.prop("arrival-orders", r.tier.pick(150_000, 3_000_000), || arb_case(7, false, max_seq), check);
     r.prop("histories", r.tier.pick(150_000, 3_000_000), || arb_case(r.tier.pick(14, 30), true, max_seq), check);
     r.prop("near-ties", r.tier.pick(200_000, 4_000_000), || arb_case_ties(r.tier.pick(12, 24)), check);
+    r.assume(TM_RULE);
+    r.prop("tm-eligibility", r.tier.pick(60_000, 1_500_000), arb_tm_case, check_tm);
 }
 
-pub fn replay(_sub: &str, case: &Value) -> Result<CheckResult, String> {
+pub fn replay(sub: &str, case: &Value) -> Result<CheckResult, String> {
+    if sub == "tm-eligibility" {
+        return Ok(check_tm(&decode_case(case)?));
+    }
     let c: Case = decode_case(case)?;
     Ok(check(&c))
 }
